@@ -4,8 +4,10 @@ patch=$1; shift
 cd /repo || exit 9
 if ! git diff --quiet; then echo "/repo dirty"; exit 9; fi
 if ! git apply --check "$patch" 2>/dev/null; then echo "PATCH DOES NOT APPLY to /repo HEAD"; exit 8; fi
+rm -rf /verif/work/evidence_saved; cp -r /verif/evidence /verif/work/evidence_saved   # evidence must describe the unchanged tree
 git apply "$patch"
 for pid in "$@"; do
   ( cd /verif && timeout 3000 ./check $pid --tier ${TIER:-quick} > /root/work/mut/out_$(basename $patch .diff)_$pid.log 2>&1; echo "$pid exit=$? $(grep -c '^VIOLATION' /root/work/mut/out_$(basename $patch .diff)_$pid.log) violation line(s)"; grep -m3 "what:" /root/work/mut/out_$(basename $patch .diff)_$pid.log | cut -c1-260 )
 done
 git checkout -- . ; git status --short | head -3
+rm -rf /verif/evidence; mv /verif/work/evidence_saved /verif/evidence
